@@ -1,0 +1,43 @@
+//go:build verif
+
+// Contracts for package client, read by /verif's govc (see /verif/DESIGN.md). Comment-only. These are
+// mechanism-level contracts for C15: the sequential pieces the v5 exchange is built from. Goroutines, sockets and
+// the handshake sequencing are outside what a per-call contract can state.
+package client
+
+// connection objects: codecs and the multi-segment accumulator are in place (established by the constructors below)
+//@ inv (*CqlClientConnection) parts: self.frameCodec != nil && self.segmentCodec != nil && self.payloadAccumulator != nil && self.payloadAccumulator.frameCodec != nil
+//@ inv (*CqlServerConnection) parts: self.frameCodec != nil && self.segmentCodec != nil && self.payloadAccumulator != nil && self.payloadAccumulator.frameCodec != nil
+
+//@ func newCqlClientConnection
+//@   prop C15
+//@   nilable credentials
+//@   ensures parts: result1 == nil ==> result0 != nil && result0.frameCodec != nil && result0.segmentCodec != nil && result0.payloadAccumulator != nil && result0.payloadAccumulator.frameCodec != nil
+
+//@ func newCqlServerConnection
+//@   prop C15
+//@   nilable credentials, onClose
+//@   ensures parts: result1 == nil ==> result0 != nil && result0.frameCodec != nil && result0.segmentCodec != nil && result0.payloadAccumulator != nil && result0.payloadAccumulator.frameCodec != nil
+
+// Envelopes inside segments are never individually compressed: when writeSegment hands the envelope to the frame
+// codec, and afterwards, its compressed flag is clear.
+//@ func (*CqlClientConnection).writeSegment
+//@   prop C15
+//@   requires parts: outgoing.Header != nil && outgoing.Body != nil && outgoing.Body.Message != nil
+//@   ensures uncompressed: !outgoing.Header.Flags.Contains(primitive.HeaderFlagCompressed)
+//@ func (*CqlServerConnection).writeSegment
+//@   prop C15
+//@   requires parts: outgoing.Header != nil && outgoing.Body != nil && outgoing.Body.Message != nil
+//@   ensures uncompressed: !outgoing.Header.Flags.Contains(primitive.HeaderFlagCompressed)
+
+// The switch to the v5 framing happens exactly on READY / AUTHENTICATE of a version that has it, and is never undone.
+//@ func (*CqlClientConnection).maybeSwitchToModernLayout
+//@   prop C15
+//@   assigns c.modernLayout
+//@   requires parts: incoming.Header != nil && incoming.Body != nil && incoming.Body.Message != nil
+//@   ensures switch: c.modernLayout == (old(c.modernLayout) || (incoming.Header.Version.SupportsModernFramingLayout() && (typeis(incoming.Body.Message, *message.Ready) || typeis(incoming.Body.Message, *message.Authenticate))))
+//@ func (*CqlServerConnection).maybeSwitchToModernLayout
+//@   prop C15
+//@   assigns c.modernLayout
+//@   requires parts: outgoing.Header != nil && outgoing.Body != nil && outgoing.Body.Message != nil
+//@   ensures switch: c.modernLayout == (old(c.modernLayout) || (outgoing.Header.Version.SupportsModernFramingLayout() && (typeis(outgoing.Body.Message, *message.Ready) || typeis(outgoing.Body.Message, *message.Authenticate))))
